@@ -487,9 +487,9 @@ def strTy : TyInfo := { kind := .basic, str := "string", name := "string" }
 def envWith (dstField : String) : Env :=
   { tys := #[ intTy, strTy,
               { kind := .named, str := "p.S", name := "S", pkgPath := some "p", isStruct := true,
-                fields := [⟨"ID", 1⟩, ⟨"Id", 0⟩] },
+                fields := [⟨"ID", 1, false⟩, ⟨"Id", 0, false⟩] },
               { kind := .named, str := "p.D", name := "D", pkgPath := some "p", isStruct := true,
-                fields := [⟨dstField, 0⟩] } ],
+                fields := [⟨dstField, 0, false⟩] } ],
     assignable := fun a b => a == b, convertible := fun _ _ => false, lookup := fun _ _ => .none, pkgPath := "p", imports := [], stringTy := 1 }
 
 def envCase : Env := envWith "id"
